@@ -27,6 +27,21 @@ fn verif_run_sink_script() {
                 _ => panic!(),
             }
         }
+    } else if head[0] == "bufferz" {
+        // zero-sized events: only the NUMBER of retained events is observable
+        let cap: usize = head[1].parse().unwrap();
+        let mut sink: EventBuffer<()> = if head[2] == "open" { EventBuffer::with_capacity(cap) } else { EventBuffer::with_capacity_closed(cap) };
+        let w = sink.writer();
+        for l in lines {
+            let t: Vec<&str> = l.split_whitespace().collect();
+            match t[0] {
+                "w" => w.clone().write(()),
+                "n" => println!("n {}", if sink.next().is_some() { "Some(0)" } else { "None" }),
+                "o" => sink.open(),
+                "c" => sink.close(),
+                _ => panic!(),
+            }
+        }
     } else {
         let mut sink: EventSlot<u8> = if head[1] == "open" { EventSlot::new() } else { EventSlot::new_closed() };
         let w = sink.writer();
